@@ -945,6 +945,7 @@ pub fn invalid_reason(world: &World) -> Option<String> {
     }
     // tokens unique
     let mut toks = BTreeSet::new();
+    let mut ai_conditions: BTreeMap<String, String> = BTreeMap::new();
     for r in &rendered {
         for b in &r.blocks {
             if let Some(t) = b.attr("x-tok") {
@@ -954,8 +955,17 @@ pub fn invalid_reason(world: &World) -> Option<String> {
             }
             if let Some(c) = b.attr("check-ai") {
                 if let Some(t) = find_ai_token(c) {
-                    if !toks.insert(t.clone()) {
-                        return Some(format!("duplicate token {t}"));
+                    // the same prompt may be written on several blocks ("twins"): then the whole
+                    // condition must be identical, so that one reply plan fits all of them
+                    match ai_conditions.get(&t) {
+                        Some(prev) if prev == c => {}
+                        Some(_) => return Some(format!("token {t} used by two different conditions")),
+                        None => {
+                            if !toks.insert(t.clone()) {
+                                return Some(format!("duplicate token {t}"));
+                            }
+                            ai_conditions.insert(t, c.to_string());
+                        }
                     }
                 }
             }
